@@ -14,7 +14,7 @@ RULE = ("Fxp(v, [signed], [one or two of n_word/n_frac/n_int]) for dyadic scalar
         "|q-v|<LSB, no overflow flag, inaccuracy flag iff q!=v. Non-trivial = some value needs a fraction bit or >=8 integer bits, or an array with heterogeneous requirements; distinct = distinct case keys.")
 ASSUMPTIONS = ['values are exact doubles / python ints; default configuration (trunc, saturate, n_word_max=64)', 'unsigned zero infers a 0-bit word (fxp-u0/0), accepted as minimal']
 EXHAUSTIVE = False
-REQUIRED_CLASSES = {'given:none': 500, 'given:n_word': 300, 'given:n_frac': 300, 'given:n_int+n_frac': 100, 'given:n_int+n_word': 100, 'array': 500, 'capped': 200, 'pow2-boundary': 300}
+REQUIRED_CLASSES = {'given:none': 500, 'given:n_word': 300, 'given:n_frac': 300, 'given:n_int+n_frac': 100, 'given:n_int+n_word': 100, 'array': 500, 'capped': 200, 'capped-array': 200, 'pow2-boundary': 300}
 
 
 def vals_of(case):
@@ -23,8 +23,26 @@ def vals_of(case):
 
 def build_input(case, vals):
     carrier = case['carrier']
+    np_dtype = None
     if carrier == 'int' and all(v.denominator == 1 for v in vals):
         objs = [int(v) for v in vals]
+    elif carrier == 'np-narrow':
+        # the narrowest numpy dtype that holds every value exactly
+        objs = [float(v) for v in vals]
+        if all(v.denominator == 1 for v in vals):
+            for t in (np.int8, np.uint8, np.int16, np.uint16, np.int32, np.uint32, np.int64):
+                info = np.iinfo(t)
+                if all(info.min <= v <= info.max for v in vals):
+                    np_dtype, objs = t, [int(v) for v in vals]
+                    break
+        else:
+            for t in (np.float16, np.float32):
+                with np.errstate(all='ignore'):
+                    if all(np.isfinite(t(float(v))) and Fraction(float(t(float(v)))) == v for v in vals):
+                        np_dtype = t
+                        break
+        if np_dtype is not None:
+            objs = [np_dtype(o) for o in objs]
     else:
         objs = [float(v) for v in vals]
     shape = case['shape']
@@ -33,10 +51,10 @@ def build_input(case, vals):
     if shape == 'list':
         return list(objs)
     if shape == 'array':
-        return np.array(objs)
+        return np.array(objs) if np_dtype is None else np.array(objs, dtype=np_dtype)
     r, c = case['shape2']
     rows = [objs[i * c:(i + 1) * c] for i in range(r)]
-    return rows if shape == 'nlist' else np.array(rows)
+    return rows if shape == 'nlist' else (np.array(rows) if np_dtype is None else np.array(rows, dtype=np_dtype))
 
 
 def check_infer(ctx, case):
@@ -118,6 +136,35 @@ def check_infer(ctx, case):
         ctx.fail(sig + '/shape', case, {'got': C.shape_of(x)})
 
 
+def check_capped_array(ctx, case):
+    """Arrays of doubles whose joint exact format would need more than 64 bits: capped word, every element within one LSB."""
+    vs = [float.fromhex(h) for h in case['hexes']]
+    signed = case['signed']
+    F = C.Fxp()
+    ctx.ev()
+    ctx.cls('capped-array')
+    sig = 'capped-array/%s' % case['cont']
+    obj = list(vs) if case['cont'] == 'list' else np.array(vs)
+    ok, x = ctx.guard(case, lambda: F(obj) if signed is None else F(obj, signed=signed), sig_prefix=sig + '/')
+    if not ok:
+        return
+    s, w, f = C.fmt_of(x)
+    if w > 64:
+        ctx.fail(sig + '/word>64', case, {'fmt': [s, w, f]})
+        return
+    if w >= 64:
+        return          # the 64-bit word itself is python-integer territory (C18); the cap is what is asserted
+    ks = C.flat(C.codes(x))
+    o, u, ia = C.flags(x)
+    if o or u:
+        ctx.fail(sig + '/overflow-flag', case, {'flags': [o, u, ia], 'fmt': [s, w, f], 'values': vs})
+        return
+    for v, k in zip(vs, ks):
+        if not abs(M.value_of(k, f) - Fraction(v)) < M.pow2(-f):
+            ctx.fail(sig + '/error>=LSB', case, {'v': v, 'q': str(M.value_of(k, f)), 'fmt': [s, w, f]})
+            return
+
+
 def check_capped(ctx, case):
     """Doubles whose exact format would need more than 64 bits."""
     v = float.fromhex(case['hex'])
@@ -156,7 +203,7 @@ def check_capped(ctx, case):
         ctx.fail(sig + '/inaccuracy-flag-missing', case, {'v': v, 'q': str(qv), 'fmt': [s, w, f]})
 
 
-CHECKS = {'infer': check_infer, 'capped': check_capped}
+CHECKS = {'infer': check_infer, 'capped': check_capped, 'capped-array': check_capped_array}
 
 
 def replay(ctx, case):
@@ -223,7 +270,7 @@ def st_case(draw):
         if given['n_word'] is not None:
             given['n_word'] = max(given['n_word'], given['n_int'] + (1 if sg else 0) + 0, 1)
     return {'check': 'infer', 'vals': vals, 'kinds': kinds, 'signed': signed, 'shape': shape, 'shape2': shape2, 'given': given,
-            'carrier': draw(st.sampled_from(['float', 'int']))}
+            'carrier': draw(st.sampled_from(['float', 'int', 'np-narrow']))}
 
 
 def body(ctx, case):
@@ -262,7 +309,33 @@ def body_capped(ctx, case):
     check_capped(ctx, case)
 
 
+@st.composite
+def st_capped_array(draw):
+    signed = draw(st.sampled_from([None, True, False]))
+    n = draw(st.integers(2, 4))
+    hexes = []
+    for i in range(n):
+        if draw(st.booleans()):
+            # a moderately large value with a short fraction
+            v = float(draw(st.integers(1, 1 << draw(st.integers(4, 30))))) + draw(st.sampled_from([0.0, 0.5, 0.25]))
+        else:
+            # a small non-dyadic-looking double needing ~50 fraction bits
+            v = draw(st.integers(1, 999)) / draw(st.sampled_from([10.0, 3.0, 7.0, 1000.0]))
+        if signed is not False and draw(st.booleans()):
+            v = -v
+        hexes.append(float(v).hex())
+    return {'check': 'capped-array', 'hexes': hexes, 'signed': signed, 'cont': draw(st.sampled_from(['list', 'array']))}
+
+
+def body_capped_array(ctx, case):
+    ctx.nontrivial(('capped-array', tuple(case['hexes']), case['signed'], case['cont']))
+    ctx.sample(case, True)
+    check_capped_array(ctx, case)
+
+
 def task_hyp(ctx, which, n):
+    if which == 'capped-array':
+        return run_given(ctx, st_capped_array(), body_capped_array, n, ctx.task_seed)
     if which == 'infer':
         run_given(ctx, st_case(), body, n, ctx.task_seed)
     else:
@@ -273,4 +346,5 @@ def tasks(tier, scale=1.0):
     nh = int((2500 if tier == 'quick' else 40000) * scale)
     out = [('hyp-infer-%d' % i, 'task_hyp', {'which': 'infer', 'n': nh}) for i in range(14)]
     out += [('hyp-capped-%d' % i, 'task_hyp', {'which': 'capped', 'n': nh // 2}) for i in range(2)]
+    out += [('hyp-capped-array-%d' % i, 'task_hyp', {'which': 'capped-array', 'n': nh // 2}) for i in range(2)]
     return out
